@@ -1,0 +1,132 @@
+//go:build verif
+
+// Copyright 2025 StreamNative, Inc.
+//
+// Licensed under the Apache License, Version 2.0 (the "License");
+// you may not use this file except in compliance with the License.
+// You may obtain a copy of the License at
+//
+//     http://www.apache.org/licenses/LICENSE-2.0
+//
+// Unless required by applicable law or agreed to in writing, software
+// distributed under the License is distributed on an "AS IS" BASIS,
+// WITHOUT WARRANTIES OR CONDITIONS OF ANY KIND, either express or implied.
+// See the License for the specific language governing permissions and
+// limitations under the License.
+
+package balancer
+
+import (
+	"context"
+	"log/slog"
+	"sync"
+	"time"
+
+	"github.com/oxia-db/oxia/coordinator/model"
+	"github.com/oxia-db/oxia/coordinator/resources"
+	"github.com/oxia-db/oxia/coordinator/selectors/single"
+	"github.com/oxia-db/oxia/coordinator/utils"
+)
+
+// Exports for the external verification harness (build tag verif only): they run the balancer's
+// own code synchronously, without its background goroutines.
+
+func verifBalancer(status resources.StatusResource, config resources.ClusterConfigResource) *nodeBasedBalancer {
+	ctx, cancel := context.WithCancel(context.Background())
+	return &nodeBasedBalancer{
+		WaitGroup:          &sync.WaitGroup{},
+		Logger:             slog.With(slog.String("component", "load-balancer")),
+		scheduleInterval:   time.Hour,
+		quarantineTime:     time.Hour,
+		ctx:                ctx,
+		cancel:             cancel,
+		actionCh:           make(chan Action, 1000),
+		statusResource:     status,
+		configResource:     config,
+		selector:           single.NewSelector(),
+		loadRatioAlgorithm: single.DefaultShardsRank,
+		quarantineNodeMap:  sync.Map{},
+		triggerCh:          make(chan struct{}, 1),
+	}
+}
+
+// VerifRebalanceOnce runs one rebalanceEnsemble round on the given status/config and returns the
+// proposed swap actions in emission order (each one is acknowledged at once, as the coordinator's
+// action worker would do after applying it).
+func VerifRebalanceOnce(status resources.StatusResource, config resources.ClusterConfigResource) []*SwapNodeAction {
+	nb := verifBalancer(status, config)
+	defer nb.cancel()
+	var actions []*SwapNodeAction
+	done := make(chan struct{})
+	stop := make(chan struct{})
+	go func() {
+		defer close(done)
+		for {
+			select {
+			case a := <-nb.actionCh:
+				if sa, ok := a.(*SwapNodeAction); ok {
+					actions = append(actions, sa)
+				}
+				a.Done()
+			case <-stop:
+				for {
+					select {
+					case a := <-nb.actionCh:
+						if sa, ok := a.(*SwapNodeAction); ok {
+							actions = append(actions, sa)
+						}
+						a.Done()
+					default:
+						return
+					}
+				}
+			}
+		}
+	}()
+	defer func() {
+		close(stop)
+		<-done
+	}()
+	nb.rebalanceEnsemble()
+	return actions
+}
+
+// VerifSwapShard computes the balancer's swap proposal (swapShard) for moving shard `shard` of
+// `namespace` away from the ensemble member with identifier `fromID`, on the load ratios of the
+// given status. It returns the proposed action (nil when none), and swapShard's own results.
+func VerifSwapShard(status resources.StatusResource, config resources.ClusterConfigResource,
+	namespace string, shard int64, fromID string) (*SwapNodeAction, bool, error) {
+	nb := verifBalancer(status, config)
+	defer nb.cancel()
+	currentStatus := status.Load()
+	candidates, metadata := config.NodesWithMetadata()
+	groupedStatus, historyNodes := utils.GroupingShardsNodeByStatus(candidates, currentStatus)
+	loadRatios := nb.loadRatioAlgorithm(&model.RatioParams{NodeShardsInfos: groupedStatus, HistoryNodes: historyNodes})
+	var shardRatio *model.ShardLoadRatio
+	var fromNode model.Server
+	for it := loadRatios.NodeIterator(); it.Next(); {
+		node := it.Value()
+		if node.NodeID != fromID {
+			continue
+		}
+		fromNode = node.Node
+		for sit := node.ShardIterator(); sit.Next(); {
+			if sr := sit.Value(); sr.ShardID == shard && sr.Namespace == namespace {
+				shardRatio = sr
+			}
+		}
+	}
+	if shardRatio == nil {
+		return nil, false, nil
+	}
+	swapGroup := &sync.WaitGroup{}
+	swapped, err := nb.swapShard(shardRatio, fromNode, swapGroup, loadRatios, candidates, metadata, currentStatus)
+	var action *SwapNodeAction
+	select {
+	case a := <-nb.actionCh:
+		action, _ = a.(*SwapNodeAction)
+		a.Done()
+	default:
+	}
+	return action, swapped, err
+}
